@@ -292,9 +292,42 @@ def excluded_by_guard(site_node, fn, param):
     return False
 
 
+def _inline_monadic_kind_locals(test):
+    """`ts == str` with `ts = vy_type(lhs)` reads `vy_type(lhs) == str`
+    (only for kind locals of a *single* value; pair / triple kinds keep the
+    `ts` spelling the positional patterns below expect)"""
+    import copy
+    fn = test
+    while fn is not None and not isinstance(fn, ast.FunctionDef):
+        fn = getattr(fn, "_parent", None)
+    if fn is None:
+        return test
+    defs = {}
+    for a in ast.walk(fn):
+        if isinstance(a, ast.Assign) and len(a.targets) == 1 and isinstance(
+                a.targets[0], ast.Name) and isinstance(a.value, ast.Call) \
+                and dotted(a.value.func) == "vy_type" \
+                and len(a.value.args) == 1 \
+                and isinstance(a.value.args[0], ast.Name):
+            defs.setdefault(a.targets[0].id, []).append(a.value)
+    defs = {k: v[0] for k, v in defs.items() if len(v) == 1}
+    if not defs:
+        return test
+
+    class T(ast.NodeTransformer):
+        def visit_Name(self, n):
+            if isinstance(n.ctx, ast.Load) and n.id in defs:
+                return ast.Call(func=ast.Name(id="vy_type", ctx=ast.Load()),
+                                args=[copy.deepcopy(defs[n.id].args[0])],
+                                keywords=[])
+            return n
+    return ast.fix_missing_locations(T().visit(copy.deepcopy(test)))
+
+
 def guard_says_not_lazy(test, param, pos):
     """True: test true => param is not lazy; False: test false => param not
     lazy; None: says nothing."""
+    test = _inline_monadic_kind_locals(test)
     txt = ast.unparse(test).replace(" ", "")
     p = param
     pats_true = [f"isinstance({p},str)", f"type({p})isstr", f"vy_type({p})isstr",
